@@ -53,6 +53,15 @@ func TestC13(t *testing.T) {
 				return
 			}
 		}
+		// an alias declared in the function body right before the statement names the
+		// type one line earlier: the once-per-file PKGO01 of that statement (if it was the
+		// file's first use) legitimately moves to the alias declaration
+		for _, sid := range info.FuncLocalSites {
+			for _, k := range []string{fmt.Sprintf("s%d PKGO01", sid)} {
+				delete(ka, k)
+				delete(kb, k)
+			}
+		}
 		if d := diffSets(ka, kb, "base", "respelled"); d != "" {
 			violation(rt, id, "meta", "c13", p.Size(), c, "respelling (%s) changed the verdicts: %s", c.Note, d)
 		}
@@ -70,6 +79,8 @@ func TestC13(t *testing.T) {
 		ev.ClassN(id, "rewrites third-package-alias", int64(info.ThirdPkgAlias))
 		ev.ClassN(id, "rewrites parentheses", int64(info.Paren))
 		ev.ClassN(id, "rewrites of a method receiver (*(T), (*T), *LocalAlias)", int64(info.Recv))
+		ev.ClassN(id, "rewrites through an alias declared inside the function body", int64(info.FuncLocalAlias))
+		ev.ClassN(id, "aliases of aliases", int64(info.AliasChain))
 		ev.ClassN(id, "rewrites import-rename", int64(info.ImportRename))
 		ev.ClassN(id, "rewrites value<->pointer (param / literal / field)", int64(nvp))
 		for k := range ka {
